@@ -392,7 +392,7 @@ def leg_jcoff(part, tier, shard, nshards):
 
 def net_cases(tier):
     vals = list(gen.LEAVES) + [[1, [2, {"k": None}]], {"a": [0.0, -0.0], "é": {"": "€"}}, [[], {}, ""], {"id": 1, "result": None, "error": {"code": 1}},
-                               ["a" * 1500 + "é"], {"k": "\U0001F600" * 300}]
+                               ["a" * 1500 + "é"], {"k": "\U0001F600" * 300}, [" " * 2500], {"k": "a b  " * 500}]
     for kind in ("simple", "pooled"):
         for family in ("tcp", "unix"):
             for ver in VERSIONS:
@@ -405,7 +405,7 @@ def net_cases(tier):
 def check_net(case):
     kind, family, (cv, sv), name, style, i = case
     vals = list(gen.LEAVES) + [[1, [2, {"k": None}]], {"a": [0.0, -0.0], "é": {"": "€"}}, [[], {}, ""], {"id": 1, "result": None, "error": {"code": 1}},
-                               ["a" * 1500 + "é"], {"k": "\U0001F600" * 300}]
+                               ["a" * 1500 + "é"], {"k": "\U0001F600" * 300}, [" " * 2500], {"k": "a b  " * 500}]
     v = vals[i]
     w = vals[(i * 3 + 1) % len(vals)]
     r = vals[(i * 5 + 2) % len(vals)]
@@ -439,7 +439,162 @@ def leg_net(part, tier, shard, nshards):
         stop_servers()
 
 
-LEGS = {"loopback": leg_loop, "sessions": leg_session, "multicall": leg_batch, "kernel-sockets": leg_net, "translation-off": leg_jcoff}
+# -- Python-side value and callable kinds ------------------------------------------------------------------
+# JSON-representable values are not only exact dict/list/str/int objects: subclasses of the container and scalar types are
+# JSON-representable too (json.dumps accepts them), and registered callables are not only Python functions.
+
+import collections
+import functools
+import math
+import operator
+
+_Point = collections.namedtuple("_Point", "x y")
+
+
+class _MyDict(dict):
+    pass
+
+
+class _MyList(list):
+    pass
+
+
+class _MyStr(str):
+    pass
+
+
+class _MyInt(int):
+    pass
+
+
+class _Callable(object):
+    def __call__(self, a, b=2):
+        return [a, b]
+
+    def meth(self, a):
+        return {"a": a}
+
+    @staticmethod
+    def smeth(a):
+        return a
+
+    @classmethod
+    def cmeth(cls, a):
+        return [a]
+
+
+def _pyvalues():
+    dd = collections.defaultdict(list)
+    dd["k"].append(1)
+    return [
+        collections.OrderedDict([("b", 1), ("a", [2])]), collections.OrderedDict(), collections.Counter("aab"), dd, _MyDict(k=1), _MyDict(),
+        _MyList([1, "a"]), _MyList(), (1, "a"), (), _Point(1, [2]), _MyStr("s"), _MyStr(""), _MyInt(7), _MyInt(0),
+        [collections.OrderedDict([("k", (1, 2))])], {"k": _Point(0, "")}, [_MyDict(a=_MyList([_MyStr("x")]))], {"o": collections.OrderedDict(z=None)},
+        " " * 3000, ["a b " * 700], {" k ": " v "}, "\t \n" * 400,
+    ]
+
+
+PYVALUES = _pyvalues()
+
+CALLABLES = [
+    # (name, callable, positional argument lists to try)
+    ("max", max, [[3, 9, 4], [[1, 5, 2]]]),
+    ("min", min, [[3, 9, 4], ["b", "a"]]),
+    ("pow", pow, [[2, 5], [2, 5, 7]]),
+    ("len", len, [[[1, 2, 3]], ["abc"], [{}]]),
+    ("sorted", sorted, [[[3, 1, 2]]]),
+    ("abs", abs, [[-2], [1.5]]),
+    ("str", str, [[5], [], [None]]),
+    ("int", int, [["12"], [7.9], []]),
+    ("dict", dict, [[], [[["a", 1]]]]),
+    ("list", list, [["ab"], []]),
+    ("join", "-".join, [[["a", "b"]]]),
+    ("upper", "abc".upper, [[]]),
+    ("hypot", math.hypot, [[3, 4]]),
+    ("add", operator.add, [[1, 2], ["a", "b"], [[1], [2]]]),
+    ("itemgetter", operator.itemgetter(1), [[[5, 6, 7]]]),
+    ("partial", functools.partial(divmod, 17), [[5]]),
+    ("lambda", lambda *a: list(a), [[], [1], [1, None]]),
+    ("instance", _Callable(), [[1], [1, 3]]),
+    ("bound", _Callable().meth, [[1]]),
+    ("static", _Callable.smeth, [[{"k": 1}]]),
+    ("classm", _Callable.cmeth, [[0]]),
+    ("cls", _Callable, None),
+    ("divmod", divmod, [[7, 2]]),
+    ("isinstance-free", bool, [[0], [[]], ["x"]]),
+]
+
+_PYW = {}
+
+
+def py_world(sv):
+    if sv not in _PYW:
+        d = SimpleJSONRPCDispatcher(config=Config(version=sv))
+        reg = Registry(d)
+        for name, fn, argl in CALLABLES:
+            if argl is not None:
+                d.register_function(fn, "c." + name)
+        _PYW[sv] = (d, reg)
+    return _PYW[sv]
+
+
+def pyvalue_cases(tier):
+    for i in range(len(PYVALUES)):
+        for ver in VERSIONS:
+            for style in ("pos1", "kw1", "pos2", "kw2"):
+                for where in ("arg", "ret"):
+                    yield ("value", i, ver, style, where)
+    for i, (name, fn, argl) in enumerate(CALLABLES):
+        for j in range(len(argl or ())):
+            for ver in VERSIONS:
+                for form in ("plain", "batch", "notify"):
+                    yield ("callable", i, ver, j, form)
+
+
+def check_pyvalue(case):
+    what, i, (cv, sv), x, y = case
+    out = Out(cls="python-%s/c%s-s%s" % (what, cv, sv))
+    d, reg = py_world(sv)
+    t = LoopbackTransport(d)
+    proxy = jsonrpclib.ServerProxy("http://h/", transport=t, version=cv)
+    del reg.log[:]
+    if what == "value":
+        v = PYVALUES[i]
+        plain = [1, "é"]
+        args, kwargs = build_args(x, v if y == "arg" else plain, plain)
+        reg.ret = v if y == "ret" else plain
+        got, exc = None, None
+        try:
+            got = proxy.f(*args, **kwargs)
+        except Exception as ex:
+            exc = ex
+        return judge_call(out, "python-values", reg, "f", args, kwargs, reg.ret, got, exc)
+    name, fn, argl = CALLABLES[i]
+    args = argl[x]
+    want = gen.normalise(fn(*args))
+    try:
+        if y == "plain":
+            got = getattr(proxy.c, name)(*args)
+        elif y == "batch":
+            mc = jsonrpclib.MultiCall(proxy)
+            getattr(mc.c, name)(*args)
+            mc.f(1)
+            got = list(mc())[0]
+        else:
+            got = getattr(proxy._notify.c, name)(*args)
+            want = None
+    except Exception as ex:
+        return out.bad("C01/python-callables/call-raises-%s" % type(ex).__name__, "registered %s called with %r raised %r" % (name, args, ex))
+    if not gen.same(got, want):
+        out.bad("C01/python-callables/return-value-changed", "registered %s%r: client got %r, the callable returns %r" % (name, tuple(args), got, want))
+    return out
+
+
+def leg_pyvalues(part, tier, shard, nshards):
+    drive(part, "python-values", pyvalue_cases(tier), shard, nshards, check_pyvalue)
+
+
+LEGS = {"python-values": leg_pyvalues, "loopback": leg_loop, "sessions": leg_session, "multicall": leg_batch, "kernel-sockets": leg_net, "translation-off": leg_jcoff}
 
 META = {
     "technique": "bounded-exhaustive enumeration of names, argument styles, JSON values, call forms and protocol versions through the real client and "
@@ -450,7 +605,10 @@ META = {
     "re-registration of a name} on one proxy with one History (the newest registration must be the one invoked); translation-off: payloads with "
     "'__jsonclass__' members as plain data through loopback and real servers configured with use_jsonclass=False; multicall: every batch of <=3 jobs over 6 job kinds (calls and notifications) x "
     "values x server version; kernel-sockets: SimpleJSONRPCServer and PooledJSONRPCServer x TCP/Unix x versions x 29 values (leaves, nested, >1 KiB "
-    "multi-byte); every case non-trivial",
+    "multi-byte, >2 KiB of blanks); python-values: 23 values of non-exact Python types (OrderedDict, Counter, defaultdict, dict/list/str/int subclasses, tuples, "
+    "namedtuples, blank-rich long strings) as argument and as return value x styles x versions, and 23 registered callables that are not plain functions "
+    "(builtins, bound builtin methods, operator/functools objects, callable instances, bound/static/class methods, lambdas) x argument lists x {call, batch, "
+    "notification}; every case non-trivial",
     "bounds": {"quick": {"value_depth": 1, "batch_len": 3}, "thorough": {"value_depth": 2, "batch_len": 3}},
     "assumptions": ["fault-free network (property domain)", "payloads contain no '__jsonclass__' keys when translation is on", "stdlib json backend"],
 }
@@ -460,6 +618,8 @@ def replay(case):
     c = eval(case["case"], {"__builtins__": {}}, {})
     if case["leg"] == "loopback":
         return check_loop(c).viols
+    if case["leg"] == "python-values":
+        return check_pyvalue(c).viols
     if case["leg"] == "multicall":
         return check_batch(c).viols
     if case["leg"] == "sessions":
